@@ -108,14 +108,49 @@ func c02Overrides(c *Ctx) {
 		if bf == nil || uf == nil || bf.Blocks == nil || uf.Blocks == nil {
 			continue
 		}
+		persp := c.fld(hsk, "cryptoSetup", "perspective")
+		upersp := c.fld(hsk, "uCryptoSetup", "perspective")
 		o := &sibOpts{Rename: uRename, Inline: 0, Self: map[*types.Func]bool{},
 			// the u-variant is client-only: prune the base's server-only edges
-			Prune: func(ifi *ssa.If, s int) bool { return serverOnlyEdge(c, ifi, s) }}
+			Prune: func(ifi *ssa.If, s int) bool { return serverOnlyEdge(c, ifi, s) },
+			// near-copies: effects are compared with the branch conditions that guard them, in both directions
+			Guards: true,
+			GuardSkip: func(cond ssa.Value) bool {
+				// tests of the perspective (the clone is client-only and may have dropped them) and of the optional recorders
+				found := false
+				var walk func(v ssa.Value, d int)
+				walk = func(v ssa.Value, d int) {
+					if v == nil || d > 4 || found {
+						return
+					}
+					if fl, _ := loadedField(stripConv(v)); fl != nil && (fl == persp || fl == upersp || fl.Name() == "qlogger" || fl.Name() == "logger") {
+						found = true
+						return
+					}
+					switch x := stripConv(v).(type) {
+					case *ssa.BinOp:
+						walk(x.X, d+1)
+						walk(x.Y, d+1)
+					case *ssa.UnOp:
+						walk(x.X, d+1)
+					case *ssa.Call:
+						if !x.Call.IsInvoke() {
+							for _, a := range x.Call.Args {
+								walk(a, d+1)
+							}
+						} else {
+							walk(x.Call.Value, d+1)
+						}
+					}
+				}
+				walk(cond, 0)
+				return found
+			}}
 		am := allow[um.Name()]
 		if am == nil {
 			am = map[string]string{}
 		}
-		c.sibCompare(R, "cryptoSetup."+um.Name()+"⊑uCryptoSetup."+um.Name(), bf, uf, o, am, nil, false)
+		c.sibCompare(R, "cryptoSetup."+um.Name()+"⊑uCryptoSetup."+um.Name(), bf, uf, o, am, cryptoSetupAllowExtra()[um.Name()], true)
 	}
 	c.Floor(R, "uCryptoSetup methods shadowing cryptoSetup methods", common, 30)
 }
@@ -136,6 +171,15 @@ func serverOnlyEdge(c *Ctx, ifi *ssa.If, s int) bool {
 	if cli != nil && EdgeImplies(ifi, s, Rel{Op: token.NEQ, X: Load(persp), Y: ConstOf(cli)}, false) {
 		return true
 	}
+	// the clone carries the same tests on its own field
+	if up, err := c.P.Field(hsk, "uCryptoSetup", "perspective"); err == nil {
+		if EdgeImplies(ifi, s, Rel{Op: token.EQL, X: Load(up), Y: ConstOf(srv)}, false) {
+			return true
+		}
+		if cli != nil && EdgeImplies(ifi, s, Rel{Op: token.NEQ, X: Load(up), Y: ConstOf(cli)}, false) {
+			return true
+		}
+	}
 	return false
 }
 
@@ -144,10 +188,18 @@ func serverOnlyEdge(c *Ctx, ifi *ssa.If, s int) bool {
 func cryptoSetupAllow() map[string]map[string]string {
 	qk := "only computes the key type of a qlog event (the clone emits no qlog events)"
 	return map[string]map[string]string{
-		"setReadKey": {"call protocol.FromTLSEncryptionLevel": qk, "arg el -> protocol.FromTLSEncryptionLevel#0": qk, "call protocol.Perspective.Opposite": qk},
+		"setReadKey":  {"call protocol.FromTLSEncryptionLevel": qk, "arg el -> protocol.FromTLSEncryptionLevel#0": qk, "call protocol.Perspective.Opposite": qk},
 		"setWriteKey": {"call protocol.FromTLSEncryptionLevel": qk, "arg el -> protocol.FromTLSEncryptionLevel#0": qk, "call protocol.Perspective.Opposite": qk},
 		// server only: a client never issues session tickets (DESIGN §3 C02.3)
-		"GetSessionTicket": {"*": "server only"},
+		"GetSessionTicket":    {"*": "server only"},
+		"handleSessionTicket": {"*": "server only"},
+	}
+}
+
+// cryptoSetupAllowExtra: effects of uCryptoSetup methods that cryptoSetup does not have, with the reason.
+func cryptoSetupAllowExtra() map[string]map[string]string {
+	return map[string]map[string]string{
+		"GetSessionTicket":    {"*": "server only: a client never issues session tickets; the clone keeps an older, stricter variant that is never reached"},
 		"handleSessionTicket": {"*": "server only"},
 	}
 }
